@@ -44,10 +44,17 @@ func (c *cache) flushScheduler() {
 		return
 	}
 	var tick = time.NewTicker(defaultMaxBatchDelay)
+	defer verifhook.Point("writecache.flush.scheduler.exit")
+	if d := verifhook.Duration("writecache.flush.tick"); d > 0 {
+		tick.Reset(d)
+	}
 
 	for {
 		select {
 		case <-c.flushErrCh:
+			if verifhook.Fault("writecache.flush.errpause") != nil {
+				continue
+			}
 			c.log.Warn("flush scheduler paused due to error", zap.Duration("delay", defaultErrorDelay))
 			time.Sleep(defaultErrorDelay)
 			for len(c.flushErrCh) > 0 {
